@@ -372,6 +372,13 @@ def _pattern_ok(parsed):
         return False, 'name group is not a single repeat'
     op, arg = inner[0]
     if op == C.MIN_REPEAT:
+        lo = arg[0]
+        body = list(arg[2])
+        brace_free = len(body) == 1 and ((body[0][0] == C.NOT_LITERAL and body[0][1] == ord('}')) or
+                                         (body[0][0] == C.IN and list(body[0][1]) and list(body[0][1])[0][0] == C.NEGATE and (C.LITERAL, ord('}')) in list(body[0][1])))
+        if lo > 0 and not brace_free:
+            # a lazy repeat stops at the first `}` only if it may stop at once: with a minimum length the forced characters can be braces
+            return False, f'lazy name group with a minimum of {lo} character(s) of any kind: for an empty `{{}}` the forced character is the closing brace itself, so `{{}}_{{RUN}}` is taken as one placeholder named `}}_{{RUN` and RUN is not substituted'
         return True, ''
     if op == C.MAX_REPEAT:
         body = list(arg[2])
